@@ -1028,5 +1028,8 @@ func corpus() []Job {
 			Threads: [][]string{{"removeall " + h("/e")}, {"stat " + h("/e/s/g"), "stat " + h("/e")}}},
 		// two Mkdir of one name
 		{Threads: [][]string{{"mkdir " + h("/d") + " 493"}, {"mkdir " + h("/d") + " 493"}}},
+		// a metadata call racing with a rename of its target and a Stat of the new name
+		{Setup: []string{"create " + h("/a")}, Threads: [][]string{{"chmod " + h("/a") + " 384"}, {"rename " + h("/a") + " " + h("/b"), "statperm " + h("/b")}}},
+		{Setup: []string{"create " + h("/a")}, Threads: [][]string{{"chtimes " + h("/a") + " 5"}, {"remove " + h("/a"), "create " + h("/a"), "stat " + h("/a")}}},
 	}
 }
